@@ -284,11 +284,23 @@ NOT_APPLICABLE = {
 def main():
     props = [json.loads(l) for l in (VERIF / "properties.jsonl").read_text().splitlines() if l.strip()]
     checks = []
+    # input classes every check generates where they apply (grown out of eight rounds of independently seeded
+    # breaking changes, DESIGN.md 7.7)
+    global COMMON_CLASSES
+    COMMON_CLASSES = (
+        " Generated as a matter of course where the entry points allow it: every documented form of an argument "
+        "(containers, dtypes incl. integer arrays, memory layouts, labelled data, partition vectors as list / array "
+        "/ mask / other listing order, None versus explicit zeros), one unit factor over many decades on everything "
+        "that scales linearly, lengths beyond 4096 (histories, sweeps, card lists, columns), values exactly at "
+        "documented thresholds, arguments bit-compared after the call, results overwritten in place before the "
+        "next call, solver / file objects reused, and an enumerated part `defaults` (a call that leaves a keyword "
+        "out equals the call with the documented default).")
     for p in props:
         pid = p["id"]
         if pid not in CHECKS:
             continue
         tech, text, note, ref = CHECKS[pid]
+        text = text + COMMON_CLASSES
         checks.append(dict(
             property_id=pid,
             quick_cmd=f"./vcheck {pid} quick",
